@@ -1821,8 +1821,23 @@ pub fn chaos_round(out: &mut Out, rng: &mut Rng, t0: u64, round: usize) {
             p.muts.insert(*item.target(), (item.value().to_vec(), *item.key(), item.seq(), *item.signature()));
         }
     }
-    let boot: Vec<SocketAddrV4> = if rng.chance(1, 8) { vec![] } else { net.peers.iter().take(1 + rng.below(2) as usize).map(|p| p.addr).collect() };
+    // the shape of the answers: how many closer nodes are listed, in which order, which clients send a version
+    net.list_k = *rng.pick(&[8usize, 8, 8, 20, 20, 30]);
+    net.list_rev = rng.chance(1, 6);
+    net.list_random = n >= 9 && rng.chance(1, 8);
+    for p in net.peers.iter_mut() {
+        p.legacy = rng.chance(1, 4);
+    }
+    let mut boot: Vec<SocketAddrV4> = if rng.chance(1, 8) { vec![] } else { net.peers.iter().take(1 + rng.below(2) as usize).map(|p| p.addr).collect() };
+    if !boot.is_empty() && rng.chance(1, 8) {
+        // an address nothing can be sent to
+        boot.push(SocketAddrV4::new(Ipv4Addr::new(10, 1, 9, 9), 0));
+    }
+    let bad_boot = !boot.is_empty() && rng.chance(1, 8);
     let mut d = Driver::new(out, rng.next(), net);
+    if bad_boot {
+        d.boot_bad = vec![(rng.below(2) as usize, *rng.pick(&["bad1", "bad2", "bad3", "bad4"]))];
+    }
     d.drop_pct = *rng.pick(&[0u64, 0, 0, 10, 40]);
     d.dup_pct = *rng.pick(&[0u64, 0, 15]);
     d.late_pct = *rng.pick(&[0u64, 0, 15]);
@@ -1841,7 +1856,7 @@ pub fn chaos_round(out: &mut Out, rng: &mut Rng, t0: u64, round: usize) {
     d.run_for(SEC, 10 * MS);
     // few targets, shared by calls of different kinds: two random ones, the immutable value's, and the
     // targets of the mutable items (lookups are keyed by the 20 bytes alone)
-    let v = format!("chaos {}", round % 3).into_bytes();
+    let v = if rng.chance(1, 6) { let mut b = format!("chaos {}", round % 3).into_bytes(); b.resize(1000, b'x'); b } else { format!("chaos {}", round % 3).into_bytes() };
     let vt = imm_target(&v);
     let mut targets: Vec<Id> = (0..2).map(|_| Id::from_bytes(rng.id20()).expect("id")).collect();
     targets.push(vt);
@@ -1867,6 +1882,8 @@ pub fn chaos_round(out: &mut Out, rng: &mut Rng, t0: u64, round: usize) {
             12 => if rng.chance(1, 2) { "info".to_string() } else { "to_bootstrap".to_string() },
             _ => format!("find_node t={}", hex(vt.as_bytes())),
         };
+        // now and then a caller that submits its get and then leaves its future alone
+        let call = if (call.starts_with("get_imm") || call.starts_with("get_mut")) && rng.chance(1, 10) { format!("{call} mute=1") } else { call };
         d.api(call);
         match rng.below(6) {
             0 => d.run_for(*rng.pick(&[61u64, 310, 905]) * SEC, SEC),
